@@ -97,6 +97,42 @@ var c20Shells = []string{"bash", "sh", "python", "pwsh", "cmd", "powershell", "b
 
 var c20Placeholders = []string{"${{ github.sha }}", "${{ github.workflow }}", "${{github.ref}}", "${{ format('{0}', github.actor) }}", "${{ 'a' }}", "${{ github.event_name == 'push' && 'x' || 'y' }}", "${{\n  github.run_id\n}}"}
 
+// c20GenDefaults writes a defaults: section (or none) at the indentation and returns the default
+// shell it sets ("" when the section is absent or sets only a working directory: the next outer
+// level then decides).
+func c20GenDefaults(r *Rand, b *YB, ind int) string {
+	switch r.Intn(12) {
+	case 0, 1: // shell only
+		sh := r.Pick(c20Shells)
+		b.L(ind, "defaults:")
+		b.L(ind+2, "run:")
+		b.L(ind+4, "shell: "+sh)
+		return sh
+	case 2: // shell and working directory, either order
+		sh := r.Pick(c20Shells)
+		b.L(ind, "defaults:")
+		b.L(ind+2, "run:")
+		if r.Chance(1, 2) {
+			b.L(ind+4, "shell: "+sh)
+			b.L(ind+4, "working-directory: ./sub")
+		} else {
+			b.L(ind+4, "working-directory: ./sub")
+			b.L(ind+4, "shell: "+sh)
+		}
+		return sh
+	case 3: // flow style
+		sh := r.Pick([]string{"bash", "sh", "python", "pwsh"})
+		b.L(ind, "defaults: {run: {shell: "+sh+"}}")
+		return sh
+	case 4, 5: // a run section that does not name a shell
+		b.L(ind, "defaults:")
+		b.L(ind+2, "run:")
+		b.L(ind+4, "working-directory: ./sub")
+		return ""
+	}
+	return ""
+}
+
 // c20Gen builds a case. fixedBehaviours (may be nil) forces the behaviour of the first tool
 // invocations (fault enumeration); nFiles / nSteps bound the size.
 func c20Gen(r *Rand, fixedBehaviours []string, nFiles, maxSteps int, slowMs int) *c20Case {
@@ -107,13 +143,7 @@ func c20Gen(r *Rand, fixedBehaviours []string, nFiles, maxSteps int, slowMs int)
 		name := fmt.Sprintf(".github/workflows/w%d.yml", f)
 		b := NewYB()
 		b.L(0, "on: push")
-		wfShell := ""
-		if r.Chance(1, 3) {
-			wfShell = r.Pick(c20Shells)
-			b.L(0, "defaults:")
-			b.L(2, "run:")
-			b.L(4, "shell: "+wfShell)
-		}
+		wfShell := c20GenDefaults(r, b, 0)
 		b.L(0, "jobs:")
 		nj := r.Range(1, 3)
 		for j := 0; j < nj; j++ {
@@ -131,13 +161,7 @@ func c20Gen(r *Rand, fixedBehaviours []string, nFiles, maxSteps int, slowMs int)
 			default:
 				b.L(4, "runs-on: ubuntu-latest")
 			}
-			jobShell := ""
-			if r.Chance(1, 3) {
-				jobShell = r.Pick(c20Shells)
-				b.L(4, "defaults:")
-				b.L(6, "run:")
-				b.L(8, "shell: "+jobShell)
-			}
+			jobShell := c20GenDefaults(r, b, 4)
 			b.L(4, "steps:")
 			ns := r.Range(1, maxSteps)
 			for s := 0; s < ns; s++ {
@@ -225,6 +249,15 @@ func c20Gen(r *Rand, fixedBehaviours []string, nFiles, maxSteps int, slowMs int)
 					b.Lf(0, "name: step %d", id)
 					b.W("        ")
 				}
+				shellFirst := stepShell != "" && r.Chance(1, 3)
+				if shellFirst {
+					b.L(0, "shell: "+stepShell)
+					b.W("        ")
+				}
+				if r.Chance(1, 6) {
+					b.L(0, "working-directory: ./sub")
+					b.W("        ")
+				}
 				style := r.Intn(3)
 				hasNL := false
 				for _, l := range lines {
@@ -261,7 +294,7 @@ func c20Gen(r *Rand, fixedBehaviours []string, nFiles, maxSteps int, slowMs int)
 					}
 					st.Script = body
 				}
-				if stepShell != "" {
+				if stepShell != "" && !shellFirst {
 					b.L(8, "shell: "+stepShell)
 				}
 				if st.Tool != "" {
